@@ -391,8 +391,18 @@ def rule_mustcheck(ctx, cfg, prog, rule='R-MUSTCHECK'):
             ok = False
             why = 'its verdict is discarded'
             # (a) returned directly
+            def returned(e_):
+                # the call is the returned value, directly or as an arm of a returned `?:`
+                e_ = strip(e_)
+                while isinstance(e_, dict) and e_.get('k') in ('cast', 'paren') and isinstance(e_.get('e'), dict):
+                    e_ = strip(e_['e'])
+                if e_ is c:
+                    return True
+                if isinstance(e_, dict) and e_.get('k') == 'cond':
+                    return returned(e_['then']) or returned(e_['else'])
+                return False
             for nd in g.stmt_nodes():
-                if nd.ast.get('k') == 'return' and nd.ast.get('e') is not None and strip(nd.ast['e']) is c:
+                if nd.ast.get('k') == 'return' and nd.ast.get('e') is not None and returned(nd.ast['e']):
                     ok = True
             # (b) atomic condition whose false edge returns false
             for nd in g.cond_nodes():
